@@ -192,6 +192,9 @@ def describe(case):
         parts.append("WithoutDefaultGlobals()")
     if case["deny"]:
         parts.append("WithoutGlobals(%s)" % ", ".join(name_of(n) for n in case["deny"]))
+        same = [name_of(n) for n in case["deny"] if len(n) == 1]
+        if same and int(case.get("id", 1)) % 2 == 0:   # the driver's rule (harness/cmd/config: build)
+            parts.append("then WithGlobal(%s, <host object>)" % ", ".join(same))
     for o in case["ov"]:
         parts.append("WithGlobalOverride(%s, <%s>)" % (name_of(o["name"]), o["kind"]))
     return " ".join(parts) or "default configuration"
